@@ -19,12 +19,32 @@ Clauses
   C01.stft.frame_count   chunked run and compute_full return the same number of rows/cols
   C01.stft.frames        the frames given to _compute_frame are identical, in order
   C01.stft.values        feature values agree (float64 rtol 1e-9 + atol 1e-12; float32 1e-6)
+                         - also for single-precision signals whose accuracy depends on WHERE
+                         precision is lost (see "Precision section" below)
   C01.si.frame_count / C01.si.values   same for the short-integration computer
   C01.fbf.frame_count / C01.fbf.frames / C01.fbf.values
                          frame_by_frame_calculation(chunk_size=k) against compute_full
   C01.dtype              the chunked result has the dtype of compute_full's result
   C01.no_exception       neither side raises
   C01.state_leak         (diagnostic) a cached instance fails where fresh instances pass
+
+Precision section ("any float signal ... same values up to floating-point round-off ... as
+compute_full"; "frame_by_frame_calculation returns the same matrix for every chunk_size").
+"Any float signal" includes float32 signals, and includes signals that are nothing like
+noise. Both computers convert the samples to float64 (exactly) and do all arithmetic in
+float64; the float32 result is rounded when it is stored (and, with use_log, passed through
+a float32 log). Two ways of cutting the same float32 signal can therefore differ by a couple
+of float32 ulps (2**-23 ~ 1.2e-7 relative), which is what "round-off" means here; the
+tolerance for float32 stays the module's 1e-6 * (1 + |value|), about 8 ulps. On Gaussian
+noise every band holds energy and even a computation carried out partly in single
+precision stays inside that; it does not on large-amplitude, spectrally sparse signals (a
+hum, two close tones, a DC offset with a small tone, a narrow band), where most filters see
+next to nothing and a single-precision noise floor (1e-7 of the peak) dominates them. A
+streamed computer has two routes for a sample - chunks longer than its transform block
+(SI: the DFT size, STFT: the frame length) are sliced directly, shorter ones go through a
+float64 history buffer - so the section streams such signals with chunk lengths on both
+sides of that block (B//4, B-1, B+1, 2B+3, long-then-short, short-then-long; two of them via
+frame_by_frame_calculation) for both computers and compares with compute_full.
 """
 import time
 import warnings
@@ -56,6 +76,7 @@ DEFAULTS = {
     "use_power": False,
     "via": "chunks",
     "fbf_chunk_size": None,
+    "signal": None,
 }
 
 
@@ -165,8 +186,39 @@ def _si_one_sided_support(bank, style):
     return M - M // 2
 
 
-def _signal(seed, N, dtype):
-    return _common.make_rng(seed, "c01.x").standard_normal(int(N)).astype(dtype)
+def _signal(seed, N, dtype, spec=None):
+    """spec None: seeded standard Gaussian samples. Otherwise a dict
+    {"dc": d, "amp": [..], "freq": [..] (cycles per sample), "phase": [..], "noise": sd}:
+    x[n] = d + sum_i amp_i sin(2 pi freq_i n + phase_i) + sd * (the same Gaussian samples),
+    evaluated in float64 and then converted to `dtype`."""
+    g = _common.make_rng(seed, "c01.x").standard_normal(int(N))
+    if spec is None:
+        return g.astype(dtype)
+    n = np.arange(int(N), dtype=np.float64)
+    x = np.full(int(N), float(spec.get("dc", 0.0)))
+    for a, f, ph in zip(spec.get("amp", ()), spec.get("freq", ()), spec.get("phase", ())):
+        x += float(a) * np.sin(2.0 * np.pi * float(f) * n + float(ph))
+    if spec.get("noise"):
+        x += float(spec["noise"]) * g
+    return x.astype(dtype)
+
+
+def _sparse_signal_specs(rng):
+    """Large-amplitude, spectrally sparse signals (16-bit PCM range): -> [(name, spec)]"""
+
+    def u(lo, hi, digits=6):
+        return round(float(rng.uniform(lo, hi)), digits)
+
+    f2 = u(0.02, 0.2)
+    f5 = u(0.03, 0.25)
+    return [
+        ("hum", dict(amp=[u(8e3, 3e4, 1)], freq=[u(0.008, 0.03)], phase=[u(0, 6.28)])),
+        ("two_tones", dict(amp=[u(8e3, 15e3, 1), u(8e3, 15e3, 1)], freq=[f2, round(f2 * 1.06, 6)], phase=[u(0, 6.28), u(0, 6.28)])),
+        ("dc_tone", dict(dc=u(1e4, 3e4, 1), amp=[u(100, 500, 1)], freq=[u(0.05, 0.3)], phase=[u(0, 6.28)])),
+        ("narrow_band", dict(amp=[u(2e3, 6e3, 1) for _ in range(5)], freq=[round(f5 * (1 + 0.005 * i), 6) for i in range(5)],
+                             phase=[u(0, 6.28) for _ in range(5)])),
+        ("dc_noise", dict(dc=u(1e4, 3e4, 1), noise=1.0)),
+    ]
 
 
 # ----------------------------------------------------------------------------------------
@@ -318,7 +370,7 @@ def replay(case):
         osup = _si_one_sided_support(pair.whole.bank, case["frame_style"])
         if not case["frame_shift"] < osup:
             return True, "not a case: SI hypothesis violated (shift %d, one-sided support %d)" % (case["frame_shift"], osup)
-    x = _signal(case["seed"], case["N"], case["dtype"])
+    x = _signal(case["seed"], case["N"], case["dtype"], case.get("signal"))
     fails, slack, nfr, _ = _check(case, pair, x)
     if fails:
         return False, "; ".join("%s: %s" % f for f in fails)
@@ -424,6 +476,8 @@ class _Runner:
         self.seed = seed
         self.worst = {"stft": 0.0, "si": 0.0}
         self.worst32 = {"stft": 0.0, "si": 0.0}
+        self.worst_sparse = {"stft": 0.0, "si": 0.0}
+        self.sparse_samples = 0
         self.counts = {}
         self.known_seen = 0
 
@@ -444,17 +498,27 @@ class _Runner:
     def one(self, pair, base, x, N, kind, parts, cache, via="chunks", fbf_chunk_size=None):
         col = self.col
         case = dict(base, N=int(N), chunks=[int(p) for p in parts], via=via, fbf_chunk_size=fbf_chunk_size)
-        del case["_id"]
+        for k in [k for k in case if k.startswith("_")]:
+            del case[k]
         fails, slack, nfr, raised = _check(case, pair, x, cache)
         comp = case["computer"]
-        if case["dtype"] == "float64":
+        if case.get("signal") is not None:
+            self.worst_sparse[comp] = max(self.worst_sparse[comp], slack)
+        elif case["dtype"] == "float64":
             self.worst[comp] = max(self.worst[comp], slack)
         else:
             self.worst32[comp] = max(self.worst32[comp], slack)
         nonempty = sum(1 for p in parts if p)
         nontrivial = nfr >= 1 and not (comp == "si" and via == "chunks" and nonempty <= 1 and len(parts) <= 1)
         key = "%s|%d|%s|%s|%s" % (base["_id"], N, via, fbf_chunk_size, ",".join(map(str, parts)))
-        col.case(key, nontrivial=nontrivial, sample=case if (nontrivial and kind in ("cut3", "rand", "fbf")) else None)
+        sample = case if (nontrivial and kind in ("cut3", "rand", "fbf")) else None
+        if case.get("signal") is not None:
+            key += "|" + repr(sorted(case["signal"].items()))
+            sample = None
+            if nontrivial and self.sparse_samples < 2 and kind == "prec.short_then_long":
+                self.sparse_samples += 1
+                sample = case
+        col.case(key, nontrivial=nontrivial, sample=sample)
         self.counts[comp + "." + kind] = self.counts.get(comp + "." + kind, 0) + 1
         if fails:
             # confirm on fresh instances, so that a verdict never depends on earlier cases
@@ -465,6 +529,11 @@ class _Runner:
                 clause, message = fails[0]
                 if len(fails) > 1:
                     message += " [also: %s]" % ", ".join(c for c, _ in fails[1:])
+                if case.get("signal") is not None and parts:
+                    message += (" {%s %s signal (%s) of %d samples, chunk lengths %d..%d around the %d-sample transform block: the "
+                                "values depend on how the signal is cut, beyond round-off}"
+                                % (case["dtype"], base.get("_signal_name", "sparse"), kind, N, min(parts), max(parts),
+                                   base.get("_block", 0)))
                 col.fail(clause, case, message)
             if raised or ok:
                 return False  # instance state is suspect: caller rebuilds the pair
@@ -500,6 +569,62 @@ def _tiny_stft(r, col, Ls, n_pairs, n_rand, deadline, dtype="float64", rate=1000
                     col.note("tiny STFT enumeration truncated by the time budget after L=%d s=%d %s kaldi=%s" % (L, s, style, kaldi))
                     return done
     return done
+
+
+def _fixed(N, k):
+    return [k] * (N // k) + ([N % k] if N % k else [])
+
+
+def _precision_section(r, col, configs, n_rep, n_rand, deadline):
+    """Non-float64, large-amplitude, spectrally sparse signals streamed with chunk lengths on
+    both sides of the computer's transform block B (SI: DFT size; STFT: frame length):
+    longer chunks are sliced directly, shorter ones go through the float64 history buffer.
+    "any float signal ... same values up to floating-point round-off ... as compute_full";
+    "frame_by_frame_calculation returns the same matrix for every chunk_size"."""
+    for cfg in configs:
+        cfg = dict(cfg)
+        wanted = cfg.pop("signals", None)
+        got = r.config(cfg)
+        if got is None:
+            col.note("precision section: configuration not a case (not realisable / outside the hypothesis): %r" % (cfg,))
+            continue
+        pair, base0 = got
+        comp = pair.whole
+        B = int(getattr(comp, "_dft_size", comp.frame_length)) if base0["computer"] == "si" else int(comp.frame_length)
+        rng = _common.make_rng(r.seed, "c01.prec.%r" % (sorted((k, str(v)) for k, v in cfg.items()),))
+        for rep in range(n_rep):
+            for name, spec in _sparse_signal_specs(rng):
+                if wanted is not None and name not in wanted:
+                    continue
+                N = 3 * B + 1 + int(rng.integers(0, B))
+                base = dict(base0, signal=spec, _signal_name=name, _block=B)
+                x = _signal(r.seed, N, base["dtype"], spec)
+                cache = {}
+                k_short, k_long = max(1, B // 4), 2 * B + 3
+                runs = [
+                    ("prec.fbf_short", _fixed(N, k_short), "fbf", k_short),
+                    ("prec.fbf_long", _fixed(N, k_long), "fbf", k_long),
+                    ("prec.just_below", _fixed(N, B - 1), "chunks", None),
+                    ("prec.just_above", _fixed(N, B + 1), "chunks", None),
+                    ("prec.long_then_short", [2 * B + 5] + _fixed(N - 2 * B - 5, max(1, B // 3)), "chunks", None),
+                    ("prec.short_then_long", _fixed(B + B // 2, max(1, B // 5)) + [0, N - B - B // 2], "chunks", None),
+                ]
+                for _ in range(n_rand):
+                    parts, left = [], N
+                    while left:
+                        k = min(left, int(rng.integers(0, 3 * B)))
+                        parts.append(k)
+                        left -= k
+                    runs.append(("prec.rand", parts, "chunks", None))
+                for kind, parts, via, k in runs:
+                    if not r.one(pair, base, x, N, kind, parts, cache, via=via, fbf_chunk_size=k):
+                        pair = _Pair(base0)
+                        cache = {}
+                if col.too_many_failures():
+                    return
+                if time.time() > deadline:
+                    col.note("precision section truncated by the time budget at %r signal %s" % (cfg, name))
+                    return
 
 
 def _ns_realistic(L, s, rng, n_extra, n_max):
@@ -614,6 +739,27 @@ def _fbf_section(r, col, configs, deadline, n_extra=1):
                 return
 
 
+def _precision_configs(quick):
+    f32 = dict(dtype="float32", kaldi_shift=False)
+    prec = [
+        dict(f32, computer="si", frame_style="centered", frame_shift=40, sampling_rate=8000, bank="gabor20",
+             pad_to_nearest_power_of_two=True),
+        dict(f32, computer="si", frame_style="centered", frame_shift=7, sampling_rate=1000, bank="tri3", use_log=False),
+        dict(f32, computer="si", frame_style="centered", frame_shift=30, sampling_rate=8000, bank="gabor8", use_log=False,
+             use_power=True),
+        dict(f32, computer="si", frame_style="causal", frame_shift=5, sampling_rate=1000, bank="gabor3"),
+        dict(f32, computer="si", frame_style="causal", frame_shift=80, sampling_rate=8000, bank="gamma20",
+             pad_to_nearest_power_of_two=True, include_energy=True, signals=None if not quick else ("hum", "dc_tone")),
+        dict(f32, computer="stft", frame_style="centered", kaldi_shift=True, frame_length=200, frame_shift=80, sampling_rate=8000,
+             bank="fbank10", pad_to_nearest_power_of_two=True),
+        dict(f32, computer="stft", frame_style="causal", frame_length=200, frame_shift=80, sampling_rate=8000, bank="gamma8",
+             pad_to_nearest_power_of_two=True, use_log=False, use_power=True),
+        dict(f32, computer="stft", frame_style="centered", frame_length=256, frame_shift=100, sampling_rate=8000, bank="gabor8",
+             window="hamming", use_log=False),
+    ]
+    return prec
+
+
 def run(tier, seed):
     _common.use_repo()
     quick = tier != "thorough"
@@ -624,14 +770,23 @@ def run(tier, seed):
     def dl(frac):
         return t0 + col.budget_s * frac
 
+    # 0. single-precision, large-amplitude, spectrally sparse signals; chunk lengths on both sides
+    #    of the transform block (first: cheap, and nothing else in the run looks at it)
+    prec = _precision_configs(quick)
+    _precision_section(r, col, prec, n_rep=1 if quick else 6, n_rand=0 if quick else 4, deadline=dl(0.12))
+    tp = time.time()
+
     # 1. tiny exhaustive STFT enumeration (most discriminating: all framing arithmetic)
     Ls = range(1, 14) if quick else range(1, 17)
-    n_cfg = _tiny_stft(r, col, Ls, n_pairs=1 if quick else 8, n_rand=2 if quick else 12, deadline=dl(0.56), every=not quick)
+    t0s = time.time()
+    n_cfg = 0
+    if not col.too_many_failures():
+        n_cfg = _tiny_stft(r, col, Ls, n_pairs=1 if quick else 8, n_rand=2 if quick else 12, deadline=dl(0.60), every=not quick)
     t1 = time.time()
     # float32 signals and a Hamming window (non-zero end taps) on a few tiny sizes
     if not col.too_many_failures():
-        _tiny_stft(r, col, (4, 5) if quick else (2, 3, 4, 5, 8, 9), 2, 3, dl(0.60), dtype="float32", bank="fbank3")
-        _tiny_stft(r, col, (6,) if quick else (6, 7, 11), 2, 3, dl(0.63), window="hamming", bank="fbank3")
+        _tiny_stft(r, col, (4, 5) if quick else (2, 3, 4, 5, 8, 9), 2, 3, dl(0.64), dtype="float32", bank="fbank3")
+        _tiny_stft(r, col, (6,) if quick else (6, 7, 11), 2, 3, dl(0.67), window="hamming", bank="fbank3")
 
     # 2. tiny SI enumeration over every admissible shift
     ALL = tuple(range(1, 40))
@@ -707,10 +862,14 @@ def run(tier, seed):
 
     col.note("executed per computer.kind: %s" % ", ".join("%s=%d" % kv for kv in sorted(r.counts.items())))
     col.note("tiny STFT: %d (L, s, mode) configurations fully enumerated in %.1f s; other tiny STFT %.1f s, tiny SI %.1f s, "
-             "larger SI %.1f s, realistic STFT %.1f s, frame_by_frame %.1f s"
-             % (n_cfg, t1 - t0, t2 - t1, t3 - t2, t4 - t3, t5 - t4, time.time() - t5))
+             "larger SI %.1f s, realistic STFT %.1f s, frame_by_frame %.1f s; precision section (run first) %.1f s"
+             % (n_cfg, t1 - t0s, t2 - t1, t3 - t2, t4 - t3, t5 - t4, time.time() - t5, tp - t0))
     col.note("worst |streamed - whole| as a fraction of the tolerance: float64 stft %.3g, si %.3g; float32 stft %.3g, si %.3g"
              % (r.worst["stft"], r.worst["si"], r.worst32["stft"], r.worst32["si"]))
+    col.note("precision section (float32 hum / two close tones / DC + tone / narrow band / DC + noise, amplitudes 1e4..3e4, chunk "
+             "lengths on both sides of the transform block): worst |streamed - whole| as a fraction of the float32 tolerance "
+             "1e-6 * (1 + |value|) (about 8 float32 ulps; the computation is float64 after an exact cast, so 1-2 ulps are expected): "
+             "stft %.3g, si %.3g" % (r.worst_sparse["stft"], r.worst_sparse["si"]))
     cuts = ("every 2-part cut at a frame-count boundary +-1 (and 0, 1, N-1, N, L//2, L//2+1)" if not quick else
             "2-part cuts at the first and at the last frame-count boundary +-1 and at 0, 1, N-1, N")
     rule = (
@@ -721,15 +880,20 @@ def run(tier, seed):
         "N in [0, 3L+2], chunkings = whole, all-ones, %s, %d seeded 3-part cuts at such boundaries and %d seeded random "
         "compositions with empty chunks interleaved; frames given to _compute_frame recorded and compared. SI: admissible "
         "shifts of 3-filter Gabor/gammatone banks at 1 kHz (all of them for two configurations), N %s, cuts at frame / DFT-block "
-        "boundaries +-1; only shifts inside the hypothesis s < one-sided support are cases."
+        "boundaries +-1; only shifts inside the hypothesis s < one-sided support are cases. Precision section: %d float32 "
+        "configurations (5 SI, 3 STFT) x seeded large-amplitude spectrally sparse signals (hum, two close tones, DC + tone, narrow "
+        "band, DC + noise) of 3B+1..4B samples, B = the transform block (SI DFT size / STFT frame length), streamed in chunks of "
+        "B//4 and 2B+3 (both via frame_by_frame_calculation), B-1, B+1, long-then-short, short-then-long%s."
         % (max(Ls), cuts, 1 if quick else 8, 2 if quick else 12,
            "in [0, 3(M+s)+2] with stride 5 plus [0, s+1] and DFT-block boundaries" if quick else
-           "in [0, 3(M+s)+2] exhaustively and around multiples of the DFT block")
+           "in [0, 3(M+s)+2] exhaustively and around multiples of the DFT block",
+           len(prec), "" if quick else " and 4 seeded random compositions with chunk lengths in [0, 3B), 6 signal draws per kind")
     )
     bound = (
         "BOUNDED: %s tier; STFT frame_length <= %d exhaustively at 1 kHz plus 12 realistic 8/16 kHz configurations at selected N; "
-        "SI shifts 1..17 on 3-filter banks plus 5 larger banks at a few shifts; seeded Gaussian signals (one per N); "
-        "float64 mainly, float32 on a subset; sections are cut short (with a note) if the time budget of %d s runs out"
+        "SI shifts 1..17 on 3-filter banks plus 5 larger banks at a few shifts; seeded Gaussian signals (one per N), float64 "
+        "mainly, float32 on a subset; plus float32 spectrally sparse signals of amplitude 1e4..3e4 on 8 configurations with 6 "
+        "chunkings around the transform block (float16 / long double signals are not exercised); sections are cut short (with a note) if the time budget of %d s runs out"
         % (tier, max(Ls), col.budget_s)
     )
     return col.result(rule, bound, ASSUMPTIONS)
